@@ -125,13 +125,23 @@ class Sandbox:
         self.hosts_seen = []         # hosts content after every op (bytes or None)
         self.default = None
         self.latin = False           # undecodable case: show bytes as latin-1 text
+        self.foreign_tmp = []        # rename/move sources that were not beside the hosts file
 
     def __enter__(self):
         import sshuttle.firewall as fw
         import sshuttle.helpers as helpers
         self.fw = fw
         helpers.verbose = 0
-        self.dir = tempfile.mkdtemp(prefix='c14_')
+        # root/etc stands for the hosts file's directory, root/tmp for the process temp dir (TMPDIR);
+        # as on most machines (tmpfs /tmp) they count as different file systems: a rename between
+        # the two directories fails with EXDEV, renames inside one directory work normally
+        self.root = tempfile.mkdtemp(prefix='c14_')
+        self.dir = os.path.join(self.root, 'etc')
+        self.tmpdir = os.path.join(self.root, 'tmp')
+        os.mkdir(self.dir)
+        os.mkdir(self.tmpdir)
+        self.saved_tempdir = tempfile.tempdir
+        tempfile.tempdir = self.tmpdir
         self.hosts = os.path.join(self.dir, 'hosts')
         self.bak = self.hosts + '.sbak'
         self.saved = dict(HOSTSFILE=fw.HOSTSFILE, os=fw.os, shutil=fw.shutil, log=fw.log,
@@ -155,7 +165,8 @@ class Sandbox:
             else:
                 del fw.open
         finally:
-            shutil.rmtree(self.dir, ignore_errors=True)
+            tempfile.tempdir = self.saved_tempdir
+            shutil.rmtree(self.root, ignore_errors=True)
         return False
 
     # ---- raw access (never through the patched names)
@@ -185,6 +196,9 @@ class Sandbox:
         if self.latin:
             return hx(b.decode('latin-1').encode('utf-8'))
         return hx(b)
+
+    def same_fs(self, a, b):
+        return os.path.dirname(os.path.abspath(a)) == os.path.dirname(os.path.abspath(b))
 
     def name(self, path):
         if path == self.hosts:
@@ -363,6 +377,9 @@ class _OsProxy:
 
     def rename(self, a, b, **k):
         def do():
+            if not self._sb.same_fs(a, b):
+                self._sb.foreign_tmp.append(str(a))
+                raise OSError(errno.EXDEV, 'Invalid cross-device link')
             self._sb.tmp_at_rename.append(self._sb.raw(a))
             return os.rename(a, b, **k)
         return self._sb.call('rename %s %s' % (self._sb.name(a), self._sb.name(b)), do)
@@ -379,10 +396,30 @@ class _ShProxy:
         return self._sb.call('copy %s %s' % (self._sb.name(a), self._sb.name(b)), lambda: shutil.copyfile(a, b, **k))
 
     def move(self, a, b, **k):
+        sb = self._sb
+        if not sb.same_fs(a, b):
+            # what shutil.move does across file systems (its own os.rename fails with EXDEV):
+            # copy2 = open the target for writing (truncating it), copy, then unlink the source.
+            # Each step is a file-system operation of its own, i.e. a crash point.
+            sb.foreign_tmp.append(str(a))
+            data = sb.raw(a)
+            sb.tmp_at_rename.append(data)
+            nb = sb.name(b)
+            f = sb.call('move-open %s' % nb, lambda: open(b, 'wb'))
+            half = len(data) // 2
+            for part in (data[:half], data[half:]):
+                def wr(part=part):
+                    f.write(part)
+                    f.flush()
+                sb.call('move-copy %s %d' % (nb, len(part)), wr)
+            sb.call('move-close %s' % nb, f.close)
+            sb.call('move-unlink %s' % sb.name(a), lambda: os.unlink(a))
+            return b
+
         def do():
-            self._sb.tmp_at_rename.append(self._sb.raw(a))
+            sb.tmp_at_rename.append(sb.raw(a))
             return shutil.move(a, b, **k)
-        return self._sb.call('move %s %s' % (self._sb.name(a), self._sb.name(b)), do)
+        return sb.call('move %s %s' % (sb.name(a), sb.name(b)), do)
 
     def __getattr__(self, n):
         return getattr(shutil, n)
@@ -613,9 +650,20 @@ def single_case(ctx, content, bak, hm, port, mode=0o644, err_at=(), crash_all=Tr
         case.add(line, res)
         after = sb.raw(sb.hosts)
         seen = list(sb.hosts_seen)
-        renamed_ok = any(o.startswith('rename') and '-> ok' in o for o in ops)
-        moved = any(o.startswith('move') for o in ops)
+        renamed_ok = any(o.startswith('rename') and '-> ok' in o for o in ops) or \
+            (out == 'done' and bool(sb.foreign_tmp))
+        foreign_tmp = list(sb.foreign_tmp)
+        # the documented non-atomic fallback: shutil.move after a *refused* rename of a temporary that
+        # was beside the hosts file.  A rename that fails because the code put its temporary on another
+        # file system is the code's own doing and stays inside the atomicity claim.
+        moved = any(o.startswith('move') for o in ops) and not foreign_tmp
         nops = len(ops)
+    if foreign_tmp:
+        violation(ctx, 'C14:atomic:temporary-not-beside-hosts-file', desc,
+                  'the file renamed over the hosts file lives in the hosts file\'s directory (only then is the '
+                  'final rename atomic; across file systems it fails with EXDEV and the fallback rewrites the '
+                  'hosts file in place)', dict(renamed_from=[os.path.basename(x) for x in foreign_tmp],
+                                               ops=[o.split(' ;')[0][:80] for o in ops[-8:]]), kind='faults')
     ctx.hist('ops:%s' % ('<=12' if nops <= 12 else '<=40' if nops <= 40 else '>40'))
     ctx.hist('outcome:' + out)
     if moved:
@@ -1011,8 +1059,8 @@ def gen_cases(ctx):
                 for p, k, h in pre:
                     run_single(sb, k, dict(h), p)
                 _l, _r, ops, _o = run_single(sb, kind, dict(hm), port)
-            first = next(j for j, o in enumerate(ops) if o.startswith('openw'))
-            lens[tag] = [first, len(ops) - 1 - first, 1]
+            first = next((j for j, o in enumerate(ops) if o.startswith('openw')), max(0, len(ops) - 2))
+            lens[tag] = [first, max(0, len(ops) - 1 - first), 1]
         for order in sorted(set(itertools.permutations('aaabbb'))):
             pos = {'a': 0, 'b': 0}
             sched = ''
